@@ -346,7 +346,22 @@ class Gen:
                 n = rng.randint(1, 40)
                 lex = rng.randrange(2)
                 a = b'\xf7' + rand_bytes(rng, n) + bytes([i & 255, (i >> 8) & 255, 0xf7])
-                b = rand_bytes(rng, len(a))
+                # how the neighbour relates to the victim: the bucket scan must compare lengths AND bytes, so besides unrelated words of
+                # one length the victim is a proper prefix of the neighbour, an extension of it, differs from it in the last byte only,
+                # or is the neighbour followed by NUL bytes
+                rel = rng.randrange(6)
+                if rel == 0:
+                    b = a[:rng.randint(1, len(a) - 1)]
+                elif rel == 1:
+                    b = a + rand_bytes(rng, rng.randint(1, 12))
+                elif rel == 2:
+                    b = a[:-1] + bytes([a[-1] ^ (1 << rng.randrange(8))])
+                elif rel == 3:
+                    b = a + b'\x00' * rng.randint(1, 3)
+                else:
+                    b = rand_bytes(rng, len(a))
+                self.stats_rel = getattr(self, 'stats_rel', {})
+                self.stats_rel[rel if rel < 4 else 4] = self.stats_rel.get(rel if rel < 4 else 4, 0) + 1
                 if b and b not in self.kset:
                     self.emit('inject L%d %s %s' % (lex, hx(a), hx(b)))
                     self.emit('get L%d %s' % (lex, hx(b)))
@@ -663,6 +678,7 @@ def run(tier):
         'fresh_words_with_NUL': stats['with_nul'], 'answers_from_constants': stats['constant_answers'],
         'answers_of_existing_nodes': stats['hits'], 'rereads_checked': stats['rereads'],
         'model_bucket_length_scanned_distribution': stats['bucket_scan'],
+        'injected_neighbour_relation(0=victim is prefix,1=victim extends,2=last byte differs,3=victim has trailing NULs,4=unrelated)': getattr(g, 'stats_rel', {}),
         'trace_kinds': [l for l, _ in g.traces], 'ops': sum(len(o) for _, o in g.traces), 'exhaustive': False,
     })
     res.assumptions += [
